@@ -68,6 +68,7 @@ def run(ctx, res):
         if m > 0:
             c["L"], c["D"] = c["L"] / m, D / m
         cases.append(c)
+    drex.variant_checks(res, rng, ctx, "published_equations")
     oi = [drex.call_derivatives(c) for c in cases]
     oj = drex.run_jit(cases)
     ml = C.run_driver([drex.case_line(c) for c in cases])
